@@ -78,6 +78,35 @@ def replay(case):
         return dict(reproduced=False)
     if kind == 'master':
         bad, d = master_case(des, case['key'], case['round'], case['pt']); return dict(reproduced=bad, detail=d)
+    if kind == 'schedule_history':
+        for t in range(4):
+            kb = [rnd.randrange(256) for _ in range(32)]; K = np.array(kb, dtype='uint8')
+            outs = [aes.key_schedule(K), aes.key_schedule(K.reshape(2, 16)), aes.key_schedule(K[:16].copy()), aes.key_schedule(K[:16].reshape(1, 16))]
+            exps = [np.array(F.round_keys(kb), dtype='uint8'), np.array([F.round_keys(kb[:16]), F.round_keys(kb[16:])], dtype='uint8'), np.array(F.round_keys(kb[:16]), dtype='uint8'), np.array(F.round_keys(kb[:16]), dtype='uint8')]
+            for k_, (o, e) in enumerate(zip(outs, exps)):
+                if (k_ < 3 and o.shape != e.shape) or not np.array_equal(o.reshape(-1), e.reshape(-1)): return dict(reproduced=True, key=kb, detail='call %d on the same bytes in another shape: shape %s' % (k_ + 1, o.shape))
+        return dict(reproduced=False)
+    if kind == 'convert':
+        # _convert_hypothesis_bits_into_keys on small lists with the given length / head: exactly the matching numbers, each once
+        import itertools
+        Ln = min(case['L'], 10); head = case.get('head', 255)      # small lists: a wrong body may return exponentially many numbers
+        def completions(arr):
+            free = [i for i, b in enumerate(arr) if b == 255]; out = set()
+            for bits in itertools.product((0, 1), repeat=len(free)):
+                v = list(arr)
+                for i, b in zip(free, bits): v[i] = b
+                out.add(sum(b << (len(arr) - 1 - i) for i, b in enumerate(v)))
+            return out
+        for t in range(40):
+            tail = [rnd.choice([0, 1, 1, 0, 255]) for _ in range(Ln - 1)]
+            while tail.count(255) > 8: tail[tail.index(255)] = rnd.randrange(2)
+            if tail: tail[-1] = rnd.randrange(2)
+            arr = ([head] + tail) if Ln > 1 else [head if head != 255 else 0]
+            try: got = list(des._convert_hypothesis_bits_into_keys(list(arr)))
+            except Exception as e: return dict(reproduced=True, array=arr, detail='raises %r' % (e,))
+            exp = completions(arr)
+            if len(got) != len(exp) or set(int(g) for g in got) != exp: return dict(reproduced=True, array=arr, detail='got %d numbers, %d completions expected; first differing %s' % (len(got), len(exp), sorted(set(int(g) for g in got) ^ exp)[:4]))
+        return dict(reproduced=False)
     return dict(reproduced=None)
 
 def bounded(n, seed):
@@ -121,6 +150,8 @@ def bounded(n, seed):
                 and [v & 0xfe for v in key] in [[int(v) & 0xfe for v in x] for x in c]
         except Exception as e: ok = False
         if not ok: fails.append(dict(kind='candidates', function='scared.des.base::_find_possible_keys', key=key, round=r))
+    ev += 1; r_ = replay(dict(kind='schedule_history'))
+    if r_['reproduced']: fails.append(dict(kind='schedule_history', function='scared.aes.base::key_schedule', detail=r_.get('detail')))
     return dict(evaluations=ev, failures=len(fails), failing=fails[:5], bound='%d random AES windows; DES get_master_key on %d directed/random (key, round) cases; _find_possible_keys candidate sets' % (n, len(cases)))
 
 if __name__ == '__main__':
